@@ -20,6 +20,10 @@ def run(tier):
         obs.append(Obligation('seq3', 'harness/c03.py', 'h_seq3', partitions=pats, timeout=900,
                               what='same for sequences of three mutations (kind patterns with adds, renames, changes, deletes)',
                               bounds='120 kind triples over the same pools', functions=F))
+    follow = [[a, b, c] for a in ((4,) if tier == 'quick' else (0, 4)) for b in (1, 2, 4) for c in (1, 2, 3, 4, 5)]
+    obs.append(Obligation('seq3_follow', 'harness/c03.py', 'h_seq3_follow', partitions=follow, timeout=(500 if tier == 'quick' else 1200),
+                          what='sequences of three mutations on one model where later steps may address a field under the name an earlier rename/add gave it (rename chains followed by change, delete, rename or unique_together)',
+                          bounds='%d kind triples (first a rename%s, then change/rename, then change/delete/rename/unique_together) x any of 4 field names per step x new names g,h,i' % (len(follow), '' if tier == 'quick' else ' or an add'), functions=F))
     pats4 = [[a, 4, 0, d] for a in (1, 2, 3) for d in (1, 2, 3)] + [[4, 4, 3, 1], [1, 4, 4, 3], [0, 4, 0, 3]]
     if tier == 'thorough':
         obs.append(Obligation('seq4', 'harness/c03.py', 'h_seq4', partitions=pats4, timeout=1200,
